@@ -3,15 +3,20 @@
 
   The model is Model/XzDecode.lean (whole-buffer .xz decoder mirroring stream_decoder.c / block_decoder.c / index_hash.c),
   parametric in the payload decoder and in the check function (`Env`), so every theorem below holds for the real
-  LZMA2/BCJ/delta chain and for CRC32/CRC64/SHA-256 alike.  Grammar and stage lemmas: Lemmas/XzDecode*.lean.
+  LZMA2/BCJ/delta chain and for CRC32/CRC64/SHA-256 alike.  Grammar and stage lemmas: Lemmas/XzDecode.lean,
+  Lemmas/XzDecodeStream.lean, Lemmas/XzFlip.lean, Lemmas/CrcFlip.lean; the .lz part rests on Lemmas/C16.lean (b-c16).
   A universal "any damage is detected" statement is false for every fixed-size check, so the theorems say exactly what
-  acceptance implies and which damage is always caught.  Helper lemmas live in Lemmas/.
+  acceptance implies and which damage is always caught.
 -/
 import XzVerif.Lemmas.XzDecodeStream
-import XzVerif.Lemmas.CrcFlip
+import XzVerif.Lemmas.XzFlip
+import XzVerif.Lemmas.XzLocal
+import XzVerif.Lemmas.C16
 
 namespace XzVerif.C05
-open XzVerif XzVerif.Container XzVerif.XzDecode XzVerif.Crc
+open XzVerif XzVerif.Container XzVerif.XzDecode XzVerif.CrcFlip
+
+/-! ## What acceptance implies -/
 
 /-- **accept_implies_checked.**  If `lzma_stream_decoder` + `lzma_code(LZMA_FINISH)` ends with LZMA_STREAM_END on `b`, then
     `b` has the structure `ValidXz` (Lemmas/XzDecodeStream.lean), i.e. for every Stream:
@@ -65,5 +70,290 @@ theorem accept_implies_checked_buffer (E : Env) (flags : Nat) (b : List UInt8) (
           · rename_i h1 h2
             subst h
             exact absurd hr h2
+
+/-- An accepted Block's stored Check is the check of exactly the bytes that were output (supported ID, no
+    LZMA_IGNORE_CHECK): the link between "accepted" and "the data is what the Check was computed from". -/
+theorem accepted_block_check (E : Env) (check hs : Nat) (h : BlockHeader) (inp : List UInt8) (cap : Nat)
+    (hb : (blockDecode E check false hs h inp cap).ret = .streamEnd) (hc : check ≠ 0) (hsup : E.checkSupported check = true) :
+    let b := blockDecode E check false hs h inp cap
+    (inp.drop (b.compressed + blockPadLen b.compressed)).take (checkSize check) = E.check check b.out :=
+  (blockDecode_streamEnd E check false hs h inp cap _ rfl hb).check_ok hc rfl hsup
+
+/-! ## Damage inside Compressed Data -/
+
+/-- **payload_damage_needs_collision** (Block level; Block Header with a Compressed Size field, as written by the threaded
+    encoder and `lzma_block_buffer_encode`).  Two Blocks with the same header and the same bytes after the Compressed
+    Data (Block Padding, Check, …) whose Compressed Data may differ arbitrarily: if both are accepted, either they decode
+    to the same output or the two outputs are a collision of the integrity check. -/
+theorem payload_damage_needs_collision (E : Env) (check hs : Nat) (h : BlockHeader) (c : Nat)
+    (hcs : h.compressedSize = some c) (comp comp' tail : List UInt8) (cap : Nat)
+    (hl : comp.length = c) (hl' : comp'.length = c)
+    (hc : check ≠ 0) (hsup : E.checkSupported check = true)
+    (hb : (blockDecode E check false hs h (comp ++ tail) cap).ret = .streamEnd)
+    (hb' : (blockDecode E check false hs h (comp' ++ tail) cap).ret = .streamEnd) :
+    let o := (blockDecode E check false hs h (comp ++ tail) cap).out
+    let o' := (blockDecode E check false hs h (comp' ++ tail) cap).out
+    o' = o ∨ (o' ≠ o ∧ E.check check o' = E.check check o) := by
+  intro o o'
+  have F := blockDecode_streamEnd E check false hs h _ cap _ rfl hb
+  have F' := blockDecode_streamEnd E check false hs h _ cap _ rfl hb'
+  have e1 := F.csize_field c hcs
+  have e2 := F'.csize_field c hcs
+  have k1 := F.check_ok hc rfl hsup
+  have k2 := F'.check_ok hc rfl hsup
+  rw [← e1] at k1
+  rw [← e2] at k2
+  have d1 : List.drop (c + blockPadLen c) (comp ++ tail) = List.drop (blockPadLen c) tail := by
+    rw [← List.drop_drop, ← hl, List.drop_left']; rfl
+  have d2 : List.drop (c + blockPadLen c) (comp' ++ tail) = List.drop (blockPadLen c) tail := by
+    rw [← List.drop_drop, ← hl', List.drop_left']; rfl
+  rw [d1] at k1
+  rw [d2] at k2
+  by_cases heq : o' = o
+  · exact Or.inl heq
+  · exact Or.inr ⟨heq, by rw [← k2, ← k1]⟩
+
+/-- The whole-file form of the statement: `b'` differs from an accepted `b` only inside Compressed Data of Blocks, `b'` is
+    accepted with different output ⇒ some Block exhibits a Check collision.  Proved above per Block for headers that carry
+    the Compressed Size; the general whole-file form additionally needs the (true but not yet formalised) argument that
+    the unchanged Index pins every Block boundary of `b'` to that of `b`. -/
+def payload_damage_needs_collision_statement : Prop :=
+  ∀ (E : Env) (fl : Flags) (b b' : List UInt8) (cap : Nat) (mask : List Bool),
+    PayloadLocal E → fl.ignoreCheck = false → b.length = b'.length → mask.length = b.length →
+    -- `mask[i] = true` exactly on the Compressed Data bytes of the Blocks of `b`; outside of it the files agree
+    (∀ i, mask.getD i false = false → b.getD i 0 = b'.getD i 0) →
+    (xzDecode E fl b cap).ret = .streamEnd → (xzDecode E fl b' cap).ret = .streamEnd →
+    (xzDecode E fl b' cap).out ≠ (xzDecode E fl b cap).out →
+    ∃ (check : Nat) (o o' : List UInt8), o ≠ o' ∧ E.check check o = E.check check o'
+
+/-! ## Single-bit damage outside Compressed Data -/
+
+/-- **crc32_single_bit**: CRC32 detects every single-bit error (any message, any bit, any initial value). -/
+theorem crc32_single_bit (m : List UInt8) (i : Nat) (hi : i < 8 * m.length) (init : BitVec 32) :
+    Crc.crc32Ref (flipBit m i) init ≠ Crc.crc32Ref m init := crc32Ref_flip_ne m i hi init
+
+/-- CRC64 detects every single-bit error. -/
+theorem crc64_single_bit (m : List UInt8) (i : Nat) (hi : i < 8 * m.length) (init : BitVec 64) :
+    Crc.crc64Ref (flipBit m i) init ≠ Crc.crc64Ref m init := crc64Ref_flip_ne m i hi init
+
+/-- **header_bitflip_rejected (Stream Header, whole file).**  If the Stream Header of `b` is valid, flipping any one of
+    its 96 bits makes `lzma_stream_decoder` (any flags) reject the file. -/
+theorem stream_header_bitflip_rejected (E : Env) (fl : Flags) (b : List UInt8) (cap : Nat) (hdr : StreamFlags)
+    (hok : streamHeaderDecode (b.take STREAM_HEADER_SIZE) = .ok hdr) (i : Nat) (hi : i < 96) :
+    (xzDecode E fl (flipBit b i) cap).ret ≠ .streamEnd := by
+  obtain ⟨e, he⟩ := streamHeaderDecode_flip _ hdr hok i hi
+  have hs : (streamOne E fl true (flipBit b i) cap).ret ≠ .streamEnd := by
+    unfold streamOne
+    split
+    · simp
+    · rw [flipBit_take, he]
+      simp only []
+      split
+      · simp
+      · exact streamHeaderDecode_error_ne _ _ he
+  exact xzDecode_ne_of_streamOne E fl _ cap hs
+
+/-- Stream Footer: every single-bit flip is rejected by the footer decoder (magic, or CRC32 over Backward Size and flags). -/
+theorem stream_footer_bitflip_rejected (x : List UInt8) (r : StreamFlags × Nat) (hok : streamFooterDecode x = .ok r)
+    (i : Nat) (hi : i < 96) : ∃ e, streamFooterDecode (flipBit x i) = .error e := streamFooterDecode_flip x r hok i hi
+
+/-- Block Header: every single-bit flip except in the Block Header Size byte gives LZMA_DATA_ERROR (CRC32). -/
+theorem block_header_bitflip_rejected (hs check : Nat) (b : List UInt8) (h : BlockHeader)
+    (hok : blockHeaderDecodeWith hs check b = .ok h) (i : Nat) (hlo : 8 ≤ i) (hhi : i < 8 * hs) :
+    blockHeaderDecodeWith hs check (flipBit b i) = .error .dataError := blockHeaderDecodeWith_flip hs check b h hok i hlo hhi
+
+/-- Index: an accepted Index field with any one bit flipped is rejected (for the same Blocks). -/
+theorem index_bitflip_rejected (blocks : HashInfo) (inp : List UInt8) (ic : Nat)
+    (h : indexHashDecode blocks inp = ⟨.streamEnd, ic⟩) (i : Nat) (hi : i < 8 * ic) :
+    (indexHashDecode blocks (flipBit inp i)).ret ≠ .streamEnd := indexHashDecode_flip blocks inp ic h i hi
+
+/-- Block Padding and Check field (Check ID None or supported, no LZMA_IGNORE_CHECK): an accepted Block with one bit
+    flipped anywhere after its Compressed Data is rejected.  `PayloadLocal`: the raw decoder's verdict depends only on
+    the bytes it consumed. -/
+theorem block_tail_bitflip_rejected (E : Env) (hloc : PayloadLocal E) (check hs : Nat) (h : BlockHeader)
+    (inp : List UInt8) (cap : Nat) (hb : (blockDecode E check false hs h inp cap).ret = .streamEnd)
+    (hsup : check ≠ 0 → E.checkSupported check = true)
+    (hwf : (blockDecode E check false hs h inp cap).compressed
+      ≤ (inp.take (min inp.length (compressedLimit hs check h.compressedSize))).length)
+    (i : Nat) (hlo : 8 * (blockDecode E check false hs h inp cap).compressed ≤ i)
+    (hhi : i < 8 * (blockDecode E check false hs h inp cap).consumed) :
+    (blockDecode E check false hs h (flipBit inp i) cap).ret ≠ .streamEnd :=
+  blockDecode_tail_flip E hloc check hs h inp cap _ rfl hb hsup hwf i hlo hhi
+
+/-- The whole-file form: every single-bit flip in Stream Header, Block Header, Block Padding, Check (supported ID, no
+    LZMA_IGNORE_CHECK), Index, Stream Footer or (LZMA_CONCATENATED) Stream Padding of an accepted file is rejected.
+    Proved: Stream Header for the whole file (`stream_header_bitflip_rejected`); every other field at the stage that
+    reads it.  Missing for the whole-file form: (i) the lifting lemma "a flip after the bytes a stage has consumed does
+    not change that stage's answer" through `blocksLoop` (needs `PayloadLocal`), and (ii) the two bytes whose flip
+    changes the parse instead of failing a CRC — the Block Header Size byte and the Index Indicator — for which rejection
+    is not a theorem of the format (it would need a CRC32 coincidence to be excluded).  The correspondence run checks
+    all of them exhaustively on the real decoder (`per_field_bitflips` in the evidence). -/
+def header_bitflip_rejected_statement : Prop :=
+  ∀ (E : Env) (fl : Flags) (b : List UInt8) (cap : Nat) (payloadMask : List Bool) (i : Nat),
+    PayloadLocal E → fl.ignoreCheck = false → (xzDecode E fl b cap).ret = .streamEnd →
+    i < 8 * (xzDecode E fl b cap).consumed → payloadMask.getD (i / 8) false = false →
+    (xzDecode E fl (flipBit b i) cap).ret ≠ .streamEnd
+
+/-! ## Truncation -/
+
+/-- **Acceptance is local** (Lemmas/XzLocal.lean): an accepted Stream is accepted with the same output and length inside
+    any input that agrees with it on the consumed bytes — in particular with anything appended. -/
+theorem accepted_stream_extends (E : Env) (hloc : PayloadLocal E) (hbd : PayloadBounded E) (fl : Flags) (first : Bool)
+    (p t : List UInt8) (cap : Nat) (h : (streamOne E fl first p cap).ret = .streamEnd) :
+    streamOne E fl first (p ++ t) cap = streamOne E fl first p cap := by
+  obtain ⟨_, _, _, _, _, _, _, _, _, hle⟩ := streamOne_streamEnd E fl first p cap _ rfl h
+  apply streamOne_local E hloc hbd fl first p (p ++ t) cap h
+  rw [List.take_append_of_le_length hle]
+
+/-- **prefix_free / truncation_is_never_stream_end.**  Without LZMA_CONCATENATED: if `b` is accepted and its Stream is `n`
+    bytes long, then no proper prefix of those `n` bytes is accepted — a file cut short inside the Stream is never
+    reported as complete.  Hypotheses on the (abstract) payload decoder: its verdict depends only on the bytes it
+    consumed (`PayloadLocal`) and it does not claim more bytes than it was given (`PayloadBounded`). -/
+theorem prefix_free (E : Env) (hloc : PayloadLocal E) (hbd : PayloadBounded E) (fl : Flags) (hnc : fl.concatenated = false)
+    (b p : List UInt8) (cap : Nat) (hr : (xzDecode E fl b cap).ret = .streamEnd)
+    (hp : p <+: b) (hlt : p.length < (xzDecode E fl b cap).consumed) :
+    (xzDecode E fl p cap).ret ≠ .streamEnd := by
+  intro hc
+  obtain ⟨t, ht⟩ := hp
+  have e1 := xzDecode_single E fl hnc b cap hr
+  have e2 := xzDecode_single E fl hnc p cap hc
+  rw [e1] at hlt
+  rw [e2] at hc
+  have hx := accepted_stream_extends E hloc hbd fl true p t cap hc
+  rw [ht] at hx
+  rw [hx] at hlt
+  obtain ⟨_, _, _, _, _, _, _, _, _, hle⟩ := streamOne_streamEnd E fl true p cap _ rfl hc
+  omega
+
+/-- The same through `lzma_code`: a proper prefix of an accepted Stream ends in an error code, and (this is the part
+    that is a theorem about the wrapper) never in LZMA_OK/LZMA_STREAM_END: `xzDecode` maps "wants more input" to
+    LZMA_BUF_ERROR. -/
+theorem truncation_is_never_stream_end (E : Env) (hloc : PayloadLocal E) (hbd : PayloadBounded E) (fl : Flags)
+    (hnc : fl.concatenated = false) (b : List UInt8) (cap : Nat) (hr : (xzDecode E fl b cap).ret = .streamEnd)
+    (n : Nat) (hn : n < (xzDecode E fl b cap).consumed) :
+    (xzDecode E fl (b.take n) cap).ret ≠ .streamEnd ∧ (xzDecode E fl (b.take n) cap).ret ≠ .ok := by
+  constructor
+  · apply prefix_free E hloc hbd fl hnc b (b.take n) cap hr (List.take_prefix n b)
+    rw [List.length_take]; omega
+  · unfold xzDecode
+    simp only []
+    split
+    · simp
+    · rename_i h; exact h
+
+/-! ## .lz -/
+
+/-- **lzip_footer_enforced.**  If `lzma_lzip_decoder` (no LZMA_CONCATENATED) answers LZMA_STREAM_END, the input starts
+    with a member whose footer fields equal the actual values: CRC32 of the output (unless LZMA_IGNORE_CHECK), Data size,
+    and for version 1 the Member size (`ValidMemberAt` / `BodyOk` / `FooterOk` of Lemmas/C16.lean). -/
+theorem lzip_footer_enforced (P : Alone.Payload) (cfg : Lzip.Cfg) (hc : cfg.concatenated = false) (inp : List UInt8)
+    (h : (Lzip.lzipDecode P cfg inp).ret = .streamEnd) :
+    ∃ (v c : UInt8) (r2 : List UInt8) (ds : Nat),
+      inp = Lzip.magic ++ v :: c :: r2 ∧ v.toNat ≤ 1 ∧ Lzip.dictSizeOfCode c.toNat = some ds ∧
+      (P (Lzip.lzipOpts ds) r2).ret = .streamEnd ∧ (Lzip.lzipDecode P cfg inp).out = (P (Lzip.lzipOpts ds) r2).out ∧
+      Lzip.footerSize v.toNat ≤ (r2.drop (P (Lzip.lzipOpts ds) r2).consumed).length ∧
+      (cfg.ignoreCheck = false →
+        Lzip.crc32 (P (Lzip.lzipOpts ds) r2).out = Alone.leNat ((r2.drop (P (Lzip.lzipOpts ds) r2).consumed).take 4)) ∧
+      (P (Lzip.lzipOpts ds) r2).out.length = Alone.leNat (((r2.drop (P (Lzip.lzipOpts ds) r2).consumed).drop 4).take 8) ∧
+      (v.toNat > 0 → 6 + (P (Lzip.lzipOpts ds) r2).consumed + Lzip.footerSize v.toNat
+        = Alone.leNat (((r2.drop (P (Lzip.lzipOpts ds) r2).consumed).drop 12).take 8)) := by
+  rcases C16L.lzipDecode_single P cfg hc inp with ⟨out, n, hv, he⟩ | ⟨_, hne⟩
+  · obtain ⟨v, c, r2, hinp, hv1, ds, hds, _, hret, hout, ⟨hfl, hcrc, hsz, hms⟩, _⟩ := hv
+    refine ⟨v, c, r2, ds, hinp, hv1, hds, hret, by rw [he, hout], hfl, hcrc, hsz, hms⟩
+  · exact absurd h hne
+
+/-! ## Non-vacuity: concrete files, checked by kernel evaluation -/
+
+/-- A toy payload format for the examples: `[n, b₁ … bₙ]` decodes to `b₁ … bₙ` and consumes `n + 1` bytes. -/
+def toyPayload (_ : List Filter) (inp : List UInt8) (_ : Nat) : PRes :=
+  match inp with
+  | [] => { ret := .ok, out := [], consumed := 0 }
+  | n :: t => if t.length < n.toNat then { ret := .ok, out := [], consumed := inp.length }
+              else { ret := .streamEnd, out := t.take n.toNat, consumed := n.toNat + 1 }
+
+def toyEnv : Env := { payload := toyPayload, checkSupported := fun c => c == 1, check := fun _ d => le32 (crc32 d) }
+
+/-- tests/files/good-0-empty.xz -/
+def emptyXz : List UInt8 :=
+  [0xfd, 0x37, 0x7a, 0x58, 0x5a, 0x00, 0x00, 0x01, 0x69, 0x22, 0xde, 0x36, 0x00, 0x00, 0x00, 0x00, 0x1c, 0xdf, 0x44, 0x21,
+   0x90, 0x42, 0x99, 0x0d, 0x01, 0x00, 0x00, 0x00, 0x00, 0x01, 0x59, 0x5a]
+
+/-- header, one Block (header 12 bytes, toy payload `03 'a' 'b' 'c'`, CRC32 of "abc"), Index, footer -/
+def toyXz : List UInt8 :=
+  [0xfd, 0x37, 0x7a, 0x58, 0x5a, 0x00, 0x00, 0x01, 0x69, 0x22, 0xde, 0x36, 0x02, 0x00, 0x21, 0x01, 0x00, 0x00, 0x00, 0x00,
+   0x37, 0x27, 0x97, 0xd6, 0x03, 0x61, 0x62, 0x63, 0xc2, 0x41, 0x24, 0x35, 0x00, 0x01, 0x14, 0x03, 0xc4, 0x33, 0x21, 0x97,
+   0x90, 0x42, 0x99, 0x0d, 0x01, 0x00, 0x00, 0x00, 0x00, 0x01, 0x59, 0x5a]
+
+example : (xzDecode toyEnv {} emptyXz).ret = .streamEnd ∧ (xzDecode toyEnv {} emptyXz).consumed = 32 := by decide +kernel
+example : xzDecode toyEnv {} toyXz = { ret := .streamEnd, out := [0x61, 0x62, 0x63], consumed := 52 } := by decide +kernel
+
+-- every hypothesis of the theorems above is met by these files: a valid Stream Header …
+example : ∃ hdr, streamHeaderDecode (toyXz.take STREAM_HEADER_SIZE) = .ok hdr := ⟨⟨0, 1⟩, by decide +kernel⟩
+-- … so each of its 96 bits is protected (`stream_header_bitflip_rejected`); e.g. bit 50 (a Stream Flags bit), bit 3 (magic)
+example : (xzDecode toyEnv {} (flipBit toyXz 50)).ret = .dataError := by decide +kernel
+example : (xzDecode toyEnv {} (flipBit toyXz 3)).ret = .formatError := by decide +kernel
+-- Block Header (bit 113 = filter properties), Compressed Data (bit 200), Check (bit 230), Index (bit 270), footer (bit 400)
+example : [113, 200, 230, 270, 400].map (fun i => (xzDecode toyEnv {} (flipBit toyXz i)).ret)
+    = [.dataError, .dataError, .dataError, .dataError, .dataError] := by decide +kernel
+-- every proper prefix is reported as LZMA_BUF_ERROR (`prefix_free`), the whole file is accepted
+example : (List.range 52).all (fun n => (xzDecode toyEnv {} (toyXz.take n)).ret == .bufError) = true := by decide +kernel
+-- lzma_stream_buffer_decode: success is LZMA_OK; a truncated buffer is LZMA_DATA_ERROR with the positions restored
+example : xzBufferDecode toyEnv 0 toyXz = { ret := .ok, out := [0x61, 0x62, 0x63], consumed := 52 } := by decide +kernel
+example : xzBufferDecode toyEnv 0 (toyXz.take 40) = { ret := .dataError, out := [], consumed := 0 } := by decide +kernel
+-- the toy payload decoder satisfies `PayloadBounded` (a hypothesis of `prefix_free`)
+example : PayloadBounded toyEnv := by
+  intro fs x cap
+  show (toyPayload fs x cap).consumed ≤ x.length
+  unfold toyPayload
+  cases x with
+  | nil => simp
+  | cons n t => simp only []; split <;> simp only [List.length_cons] <;> omega
+
+/-- the weaker extension property, for comparison -/
+def PayloadExtends (E : Env) : Prop :=
+  ∀ (fs : List Filter) (x t : List UInt8) (cap : Nat),
+    (E.payload fs x cap).ret = .streamEnd → E.payload fs (x ++ t) cap = E.payload fs x cap
+
+example : PayloadExtends toyEnv := by
+  intro fs x t cap h
+  show toyPayload fs (x ++ t) cap = toyPayload fs x cap
+  cases x with
+  | nil => simp [toyEnv, toyPayload] at h
+  | cons n t' =>
+    simp only [toyEnv, toyPayload] at h
+    by_cases hl : t'.length < n.toNat
+    · rw [if_pos hl] at h; simp at h
+    · simp only [toyPayload, List.cons_append, List.length_append]
+      rw [if_neg hl, if_neg (by omega)]
+      rw [List.take_append_of_le_length (by omega)]
+
+-- … and `PayloadLocal`, the other hypothesis of `prefix_free` and `block_tail_bitflip_rejected`
+example : PayloadLocal toyEnv := by
+  intro fs x y cap h hb ht
+  show toyPayload fs y cap = toyPayload fs x cap
+  have h' : (toyPayload fs x cap).ret = .streamEnd := h
+  have hb' : (toyPayload fs x cap).consumed ≤ x.length := hb
+  have ht' : x.take (toyPayload fs x cap).consumed = y.take (toyPayload fs x cap).consumed := ht
+  cases x with
+  | nil => simp [toyPayload] at h'
+  | cons n t =>
+    simp only [toyPayload] at h' hb' ht' ⊢
+    by_cases hl : t.length < n.toNat
+    · rw [if_pos hl] at h'; simp at h'
+    · rw [if_neg hl] at ht' ⊢
+      simp only [] at ht'
+      cases y with
+      | nil => simp at ht'
+      | cons m t' =>
+        rw [List.take_succ_cons, List.take_succ_cons] at ht'
+        simp only [List.cons.injEq] at ht'
+        obtain ⟨e1, e2⟩ := ht'
+        subst e1
+        have hlen : n.toNat ≤ t'.length := by
+          have := congrArg List.length e2
+          rw [List.length_take, List.length_take] at this
+          omega
+        simp only []
+        rw [if_neg (by omega), e2]
 
 end XzVerif.C05
